@@ -796,6 +796,13 @@ func (m *Machine) atCallObligation(c *Config, call ssa.CallInstruction, cur *Fun
 	for _, name := range cur.LetOrder {
 		env.lets[name] = cur.Lets[name]
 	}
+	// arg0, arg1, ...: the actual arguments of this call (arg0 is the receiver of a method call)
+	for i, a := range call.Common().Args {
+		func() {
+			defer func() { recover() }()
+			env.vars[fmt.Sprintf("arg%d", i)] = CV{V: m.operand(c, a), Signed: isSigned(a.Type()), Typ: a.Type()}
+		}()
+	}
 	cv, err := m.eval(env, ac.Clause.Expr)
 	if err != nil {
 		m.errs = append(m.errs, "atcall "+ac.Callee+": "+err.Error())
